@@ -14,6 +14,7 @@
                [n (old new)*n] [n (key string)*n] string(qos) [kind value](priority class)
                [present value](koordinator priority)]
    env        [ns_present labels rand gate_skipres gate_noext]
+   every input is prefixed by its stream tag (101 validate, 102 mutate)
 
    observed pod: labels  (present string) for keys 0..4
                  [present prio]
@@ -314,11 +315,23 @@ Fixpoint eq_listZ (a b : list Z) : bool :=
   end.
 
 (* ------------------------------------------------------------------ the two streams *)
+(* every input starts with the tag of its stream, so that a replay file of one stream is a
+   no-op ([-1], property holds) on the other *)
+Definition TAG_VALIDATE : Z := 101.
+Definition TAG_MUTATE : Z := 102.
+Definition untag (tag : Z) (inp : list Z) : option (list Z) :=
+  match inp with
+  | t :: r => if t =? tag then Some r else None
+  | [] => None
+  end.
+
 (* validate: observable [allowed mask] *)
-Definition run_validate (inp : list Z) : list Z :=
+Definition run_validate_body (inp : list Z) : list Z :=
   let '(g, op, old, new) := dec_validate inp in
   let m := validate g op old new in
   [bz (m =? 0); m].
+Definition run_validate (inp : list Z) : list Z :=
+  match untag TAG_VALIDATE inp with Some body => run_validate_body body | None => [-1] end.
 
 (* mutate: three admissions, each a length-prefixed block
      [1]                          the admission failed
@@ -330,7 +343,7 @@ Definition enc_result (r : option pod) : list Z :=
   | None => [1]
   | Some p => 0 :: 0 :: 0 :: enc_pod p
   end.
-Definition run_mutate (inp : list Z) : list Z :=
+Definition run_mutate_body (inp : list Z) : list Z :=
   let '(e, ps, p) := dec_mutate inp in
   match admit_pod e OP_CREATE ps p with
   | None => encode_list (enc_result None)
@@ -339,3 +352,5 @@ Definition run_mutate (inp : list Z) : list Z :=
       ++ encode_list (enc_result (admit_pod e OP_UPDATE ps p1))
       ++ encode_list (enc_result (admit_pod e OP_CREATE ps p1))
   end.
+Definition run_mutate (inp : list Z) : list Z :=
+  match untag TAG_MUTATE inp with Some body => run_mutate_body body | None => [-1] end.
